@@ -17,7 +17,7 @@ import nbformat
 FAMILY = {
     1: ("import numpy as np\nimport matplotlib.pyplot as plt\n\n"
         "def compute(x, y):\n    \"\"\"Return the scaled sum.\"\"\"\n    total = x + y\n"
-        "    return total * 2.5\n\nvalues = [compute(i, i + 1) for i in range(10)]\nprint(values)\n"),
+        "    return total * 2.5\n\n\nvalues = [compute(i, i + 1) for i in range(10)]\nprint(values)\n"),
     2: ("# Title of the section \U0001F600\n\nSome *markdown* text with an ![image](attachment:image.png)\n\n"
         "- item one\n- item two\n- item three is a bit longer than the others\n\n"
         "Final paragraph with non-ASCII: \u00e9\u00e8 \u65e5\u672c\u8a9e \u2603."),
@@ -74,6 +74,17 @@ def source_variant(fam, v):
             ln = out[k]
             body = ln.rstrip("\r\n\x0b\x0c\x1c\x1d\x1e\x85\u2028\u2029")
             out[k] = body + (" # five" if v == 5 else " # six!") + ln[len(body):]
+        return "".join(out)
+    if v == 10:      # only the last line changes; it keeps its line ending (or its lack of one)
+        out = list(lines)
+        ln = out[-1]
+        body = ln.rstrip("\r\n\x0b\x0c\x1c\x1d\x1e\x85\u2028\u2029")
+        out[-1] = body + " # end" + ln[len(body):]
+        return "".join(out)
+    if v == 9:       # one line of a run of identical adjacent lines goes (else the last line); nothing else changes
+        out = list(lines)
+        dup = [k for k in range(len(out) - 1) if out[k] == out[k + 1]]
+        del out[dup[0] if dup else len(out) - 1]
         return "".join(out)
     if v in (7, 8):  # a character at column 0 of the middle line; 7 also inserts a line just before it
         out = list(lines)
@@ -158,7 +169,18 @@ def outputs_variant(v, ec, fam):
     raise ValueError(v)
 
 
-CELL_MD = {0: {}, 1: {"collapsed": True, "scrolled": False},
+def retyped(x):
+    """the same JSON document with every integer written as a float (1 -> 1.0): equal for Python's ==, another JSON text"""
+    if isinstance(x, dict):
+        return {k: retyped(v) for k, v in x.items()}
+    if isinstance(x, list):
+        return [retyped(v) for v in x]
+    if isinstance(x, int) and not isinstance(x, bool):
+        return float(x)
+    return x
+
+
+CELL_MD = {0: {}, 1: {"collapsed": True, "scrolled": False, "slide_order": 1},
            2: {"tags": ["a", "b"], "nested": {"k": [1, {"z": None}], "f": 1.5}, "collapsed": False},
            3: {"tags": ["a", "slow", "gpu", "shared", "reviewed", "b"], "nested": {"k": [1, {"z": None}], "f": 1.5},
                "collapsed": False},
@@ -186,7 +208,7 @@ ATT = {0: None, 1: {"image.png": {"image/png": B64A}},
 
 def concrete_cell(c, minor):
     kind = c["kind"]
-    cell = {"cell_type": kind, "metadata": copy.deepcopy(CELL_MD[c["md"]]),
+    cell = {"cell_type": kind, "metadata": retyped(CELL_MD[c["md"] - 10]) if c["md"] >= 10 else copy.deepcopy(CELL_MD[c["md"]]),
             "source": source_variant(c["fam"], c["src"])}
     if kind == "code":
         cell["execution_count"] = EC[c["ec"]]
@@ -194,14 +216,16 @@ def concrete_cell(c, minor):
     elif kind == "markdown" and minor >= 1 and ATT[c["att"]] is not None:
         cell["attachments"] = copy.deepcopy(ATT[c["att"]])
     if minor >= 5:
-        cell["id"] = "cell-%d" % c["cid"]
+        # (one of the identities of inserted cells is as long as the format allows: 64 characters)
+        cell["id"] = "cell-%d" % c["cid"] if c["cid"] != 8 else ("cell-8-" + "0123456789abcdef" * 4)[:64]
     return cell
 
 
 def concrete(nb):
     """Abstract notebook (dict as printed by TLC) -> NotebookNode."""
     minor = nb["minor"]
-    d = {"nbformat": 4, "nbformat_minor": minor, "metadata": copy.deepcopy(NB_MD[nb["nbmd"]]),
+    d = {"nbformat": 4, "nbformat_minor": minor,
+         "metadata": retyped(NB_MD[nb["nbmd"] - 10]) if nb["nbmd"] >= 10 else copy.deepcopy(NB_MD[nb["nbmd"]]),
          "cells": [concrete_cell(c, minor) for c in nb["cells"]]}
     return nbformat.from_dict(d)
 
@@ -293,7 +317,7 @@ def random_edit(r, nb, newfams=(7, 8, 21, 22)):
         label = ("ReId", i, cells[i]["cid"])
     elif k < 0.60:
         i = r.randrange(n)
-        cells[i]["src"] = r.choice([v for v in (0, 1, 1, 2, 2, 3, 4, 5, 6, 7, 8) if v != cells[i]["src"]])
+        cells[i]["src"] = r.choice([v for v in (0, 1, 1, 2, 2, 3, 4, 5, 6, 7, 8, 9, 10) if v != cells[i]["src"]])
         label = ("EditSource", i, cells[i]["src"])
     elif k < 0.72:
         cands = [i for i in range(n) if cells[i]["kind"] == "code"]
